@@ -243,7 +243,7 @@ MUTANTS = [
  dict(id="C02", name="buffer_size_is_the_ring_size", edits=[(TL, "size_t ThreadLink::buffer_size(void) const {return MaxMsg;}", "size_t ThreadLink::buffer_size(void) const {return BufferSize;}")]),
  dict(id="C14", name="rparam_defaults_before_declared_range", edits=[(PS, 'rProp(parameter) rDefaultProps DOC(__VA_ARGS__) rMap(min, 0) rMap(max, 127), NULL, rParamCb(name)}', 'rProp(parameter) rDefaultProps rMap(min, 0) rMap(max, 127) DOC(__VA_ARGS__), NULL, rParamCb(name)}')]),
  dict(id="C14", name="index_read_with_atoi", edits=[("src/dispatch.c", "    unsigned long val = strtoul(*msg, NULL, 10);\n", "    unsigned val = atoi(*msg);\n")]),
- dict(id="C14", name="location_appended_unbounded", edits=[(PC, "                                          : strlen(port.name)) >= loc_left)\n                    continue;", "                                          : strlen(port.name)) >= loc_left + 100000)\n                    continue;"), (PC, "                                    : impl->fixed[port_num].length()) >= loc_left)\n                    return;", "                                    : impl->fixed[port_num].length()) >= loc_left + 100000)\n                    return;")]),
+ dict(id="C14", name="location_appended_unbounded", edits=[(PC, "                                          : strcspn(port.name, \":\")) >= loc_left)\n                    continue;", "                                          : strcspn(port.name, \":\")) >= loc_left + 100000)\n                    continue;"), (PC, "                                    : impl->fixed[port_num].length()) >= loc_left)\n                    return;", "                                    : impl->fixed[port_num].length()) >= loc_left + 100000)\n                    return;")]),
  dict(id="C19", name="char_parameter_driven_with_int", edits=[(AU, "        rtosc_message(msg, 256, path, type == 'i' ? \"i\" : \"c\", (int)round(v));", "        rtosc_message(msg, 256, path, \"i\", (int)round(v));")]),
  dict(id="C19", name="int_log_parameter_not_exponentiated", edits=[(AU, "        if(au.map.control_scale == 1)\n            v = exp(v);\n", "")]),
  dict(id="C19", name="int_clamp_in_single_precision", edits=[(AU, "        double v = center - range/2.0 + value*range;\n        if(v > au.param_max)\n            v = au.param_max;", "        double v = center - range/2.0 + value*range;\n        if(v > mx)\n            v = mx;")]),
@@ -270,4 +270,5 @@ MUTANTS = [
  dict(id="C12", name="char_zero_escape_not_accepted", edits=[("src/cpp/pretty-format.c", "                    esc = (src[1] == '0') ? 1 : get_escaped_char(src[1], 1);", "                    esc = get_escaped_char(src[1], 1);")]),
  dict(id="C13", name="scan_follows_absent_ports_without_memory", edits=[(SF, "    if(!scanned.insert(cur_portname).second)\n        return;\n", "    (void)scanned;\n")]),
  dict(id="C13", name="scan_memory_shared_between_lines", edits=[(SF, "        std::set<std::string> scanned; // per line: the edges belong to it\n", "        static std::set<std::string> scanned;\n")]),
+ dict(id="C14", name="location_fit_counts_the_argument_spec", edits=[(PC, "                                          : strcspn(port.name, \":\")) >= loc_left)", "                                          : strlen(port.name)) >= loc_left)")]),
 ]
